@@ -73,9 +73,10 @@ def case_strategy(draw):
               for _ in range(draw(st.integers(0, 4)))] for _ in range(nd)]
     ops = []
     for _ in range(draw(st.integers(1, 6))):
-        a = draw(st.integers(0, nd + ncls - 1))
+        a = draw(st.integers(0, nd + ncls))
         bkind = draw(st.sampled_from(['decl', 'decl', 'iface']))
-        b = draw(st.integers(0, (nd + ncls if bkind == 'decl' else nif) - 1))
+        b = draw(st.integers(0, (nd + ncls + 1 if bkind == 'decl'
+                                 else nif) - 1))
         ops.append([draw(st.sampled_from(['add', 'sub', 'add', 'sub',
                                           'iter'])), a, bkind, b])
     return {'ibases': ibases, 'classes': classes, 'decls': decls,
@@ -191,6 +192,12 @@ def run_case(case, cfg, out):
     for c, cls in enumerate(classes):
         decl_objs.append(implementedBy(cls))
         decl_iter.append(spec_iter[c])
+    # the shared empty declaration (what directlyProvidedBy() returns for an
+    # object without direct declarations) is an operand like any other
+    # (seed C20h)
+    from zope.interface.declarations import _empty
+    decl_objs.append(_empty)
+    decl_iter.append([])
 
     def real_iter(d):
         return [iidx.get(id(x), -1) for x in d]
